@@ -3,6 +3,7 @@ import Proofs.C12
 import Proofs.Lemmas.Attempt
 import Proofs.C13
 import Proofs.Lemmas.QueueM
+import Proofs.Lemmas.QueueAttempts
 import Proofs.C11
 /-!
 # C01 — accepted mail is never lost: every recipient reaches a final disposition
@@ -181,6 +182,62 @@ theorem removed_means_final (hpre : (pre.map (·.1)).Nodup) (hrc : ∀ id ∈ pr
   · exact Or.inr (List.mem_map.mpr ⟨(x, rp), h, rfl⟩)
   · exact absurd h hgone
 
+/-- **The k-th hand-off of a message carries `attempts = k`**: in every reachable state, under every interleaving, the hand-offs of
+    a message to the relay — oldest first — were made with the attempt numbers 0, 1, 2, …: no number is skipped, none is used
+    twice (it is the number the relay and, incremented, the backoff function see; a counter that lagged or ran ahead would stretch or
+    cut the retry schedule). -/
+theorem attempt_numbers_count_up (hpre : (pre.map (·.1)).Nodup) (hrc : ∀ id ∈ pre.map (·.1), (rc id).Nodup) {q : State}
+    (hr : Reach fb (start pre rc nn) q) (id : Nat) :
+    ((q.handed.filter (·.1 == id)).reverse.map (·.2.2)) = List.range (q.handed.filter (·.1 == id)).length := by
+  have h := (reach_A hpre hrc hr).shape id
+  simp only [hOf, Nat.add_zero, List.map_id'] at h
+  rw [List.map_reverse, h, List.reverse_reverse]
+
+/-- … and the stored counter is the number of hand-offs made, minus the one in progress: what `increment_attempts` will return
+    next is always the number of attempts made. -/
+theorem stored_attempts_is_handoffs (hpre : (pre.map (·.1)).Nodup) (hrc : ∀ id ∈ pre.map (·.1), (rc id).Nodup) {q : State}
+    (hr : Reach fb (start pre rc nn) q) (id : Nat) (m : Msg) (hm : q.msgs id = some m) (hrem : id ∉ q.s.rem) :
+    m.attempts + (if id ∈ q.s.inflight ∨ id ∈ q.s.retry then 1 else 0) = (q.handed.filter (·.1 == id)).length :=
+  by simpa [counting, hOf] using (reach_A hpre hrc hr).count id m hm hrem
+
+/-- **A restarted queue continues the count**: started on a storage that holds the attempt counter `att id` for each message
+    (`QM.startAt`), the hand-offs of a message carry `att id`, `att id + 1`, … — the retry schedule picks up where it was. -/
+theorem attempt_numbers_continue (att : Nat → Nat) (hpre : (pre.map (·.1)).Nodup) (hrc : ∀ id ∈ pre.map (·.1), (rc id).Nodup)
+    {q : State} (hr : Reach fb (startAt pre rc nn att) q) (id : Nat) (hid : id ∈ pre.map (·.1)) :
+    ((q.handed.filter (·.1 == id)).reverse.map (·.2.2)) =
+      (List.range (q.handed.filter (·.1 == id)).length).map (· + att id) := by
+  have hA := reach_A_from (inv_startAt fb pre rc nn att hpre hrc) (A_startAt pre rc nn att) hr
+  have h := hA.shape id
+  simp only [hOf, hid, if_true] at h
+  rw [List.map_reverse, h, ← List.map_reverse, List.reverse_reverse]
+
+/-- **A message is attempted for the a-th time only if the backoff function allowed it**: in histories where `_retry_later` gets the
+    backoff function's answer for the incremented counter, every hand-off other than the first was preceded by `bo a ≠ None`; so
+    with a backoff function that gives up from some attempt on, the attempts on a message are bounded and (with
+    `accepted_never_lost`) every recipient's outstanding state ends in delivered or failed for good. -/
+theorem attempts_need_backoff (bo : Nat → Option Nat) (hpre : (pre.map (·.1)).Nodup) (hrc : ∀ id ∈ pre.map (·.1), (rc id).Nodup)
+    {q : State} (hr : ReachB fb bo (start pre rc nn) q) : ∀ e ∈ q.handed, e.2.2 = 0 ∨ (bo e.2.2).isSome :=
+  (reach_B hpre hrc hr).handed
+
+/-- with a cut-off: no message is handed to the relay more than `N + 1` times -/
+theorem attempts_bounded (bo : Nat → Option Nat) (N : Nat) (hN : ∀ a, N < a → bo a = none)
+    (hpre : (pre.map (·.1)).Nodup) (hrc : ∀ id ∈ pre.map (·.1), (rc id).Nodup)
+    {q : State} (hr : ReachB fb bo (start pre rc nn) q) (id : Nat) : (q.handed.filter (·.1 == id)).length ≤ N + 1 := by
+  have hshape := (reach_A hpre hrc hr.reach).shape id
+  have hb := (reach_B hpre hrc hr).handed
+  simp only [hOf, Nat.add_zero, List.map_id'] at hshape
+  cases hl : q.handed.filter (·.1 == id) with
+  | nil => simp
+  | cons e rest =>
+    -- the newest hand-off carries the largest number, `length - 1`
+    rw [hl] at hshape
+    simp only [List.map_cons, List.length_cons, range_succ_reverse, List.cons.injEq] at hshape
+    have hmem : e ∈ q.handed := (List.mem_filter.mp (by rw [hl]; simp : e ∈ q.handed.filter (·.1 == id))).1
+    rcases hb e hmem with h0 | hsome
+    · simp only [List.length_cons]; omega
+    · have : ¬ N < e.2.2 := fun hlt => by simp [hN _ hlt] at hsome
+      simp only [List.length_cons]; omega
+
 /-- non-vacuity: a run with a partial delivery, a retry, a second attempt that is deferred and a backoff that gives up -/
 def demoRun : List QM.Label :=
   [.sched, .sleep, .write 1 0 [10, 11, 12] true, .activate 1, .done 1 (.mapping [(12, .ok), (10, .temp 1), (11, .perm 2)]),
@@ -190,6 +247,9 @@ def demoRun : List QM.Label :=
 example : ((QM.run true (QM.start [] (fun _ => []) (fun _ => true)) demoRun).map fun q =>
     (q.delivered 1, q.failed 1, q.bounces 1, q.handed, q.msgs 1)) =
     some ([12], [(11, 2), (10, 3)], [⟨2, [11], false⟩, ⟨3, [10], true⟩], [(1, [10], 1), (1, [10, 11, 12], 0)], none) := by rfl
+
+example : ((QM.run true (QM.start [] (fun _ => []) (fun _ => true)) demoRun).map fun q =>
+    (q.handed.filter (·.1 == 1)).reverse.map (·.2.2)) = some [0, 1] := by rfl
 
 end composed
 
